@@ -39,8 +39,9 @@ func boundaryPass(out *Out, t *Target, tier string, modelOK bool) {
 	S := t.S
 	near := append(span(116, 132), span(16374, 16388)...)
 	if tier == "thorough" {
-		near = append(append(span(100, 140), span(16360, 16400)...), span(2097140, 2097156)...)
+		near = append(append(span(100, 140), span(16360, 16400)...), span(2097146, 2097153)...)
 	}
+	huge := 0
 	run := func(what string, v *vval.Val) {
 		vs := v.String()
 		out.Case("boundary:"+t.Full+":"+what, true)
@@ -72,10 +73,24 @@ func boundaryPass(out *Out, t *Target, tier string, modelOK bool) {
 		}
 		return v
 	}
+	full := near
 	for j := range S.Msgs[0].Fields {
 		f := &S.Msgs[0].Fields[j]
 		if f.Extern != "" {
 			continue
+		}
+		// the 2^21 boundary (2 MiB values) only for the first three eligible fields of a type
+		near = full
+		if huge >= 3 {
+			near = nil
+			for _, n := range full {
+				if n < 1<<20 {
+					near = append(near, n)
+				}
+			}
+		}
+		if f.IsMsg || f.Kind.IsBlob() || (f.Shape == vschema.Repeated && f.Packed) {
+			huge++
 		}
 		switch {
 		case f.IsMsg:
@@ -121,21 +136,28 @@ func boundaryPass(out *Out, t *Target, tier string, modelOK bool) {
 					v.Kids[j] = l
 					run(fmt.Sprintf("packed:%d:%d", j, c), v)
 				}
-				if !isFixed && f.Kind.Signed() && f.Kind != vschema.Sint32 && f.Kind != vschema.Sint64 && n%10 < 3 {
-					c := n / 10
-					if c > 0 && !seen[-c] {
-						seen[-c] = true
+				if !isFixed && f.Kind.Signed() && f.Kind != vschema.Sint32 && f.Kind != vschema.Sint64 && n >= 20 && n < 1<<20 {
+					// the same payload size n made of ten-byte elements (negative values) plus one-byte fill
+					tens, ones := (n-10)/10, (n-10)%10+10
+					if (n-10)%10 == 0 {
+						tens, ones = n/10, 0
+					}
+					if !seen[-n] {
+						seen[-n] = true
 						neg := uint64(0xFFFFFFFFFFFFFFFF)
 						if f.Kind.Width() == 32 {
 							neg = 0xFFFFFFFF
 						}
 						l := vval.VList(true, nil)
-						for i := 0; i < c; i++ {
+						for i := 0; i < tens; i++ {
 							l.Kids = append(l.Kids, vval.VBits(neg))
+						}
+						for i := 0; i < ones; i++ {
+							l.Kids = append(l.Kids, vval.VBits(1))
 						}
 						v := vval.Empty(S, 0)
 						v.Kids[j] = l
-						run(fmt.Sprintf("packed10:%d:%d", j, c), v)
+						run(fmt.Sprintf("packed10:%d:%d", j, n), v)
 					}
 				}
 			}
